@@ -14,6 +14,12 @@ ENGINES = [
 NOTES = "Property-based testing and fuzzing only. See DESIGN.md. Known findings: /verif/known_findings.json."
 NOT_APPLICABLE = {}
 CHECKS = {
+    "C17": {
+        "text": "Generated API-shaped programs (functions with defaults/varargs, classes with arguments, parents with arguments, several parents, interfaces, methods, operator definitions, members and definitions in random order), both annotate settings; the expected Python API is computed from the model and compared with FunctionDef/ClassDef nodes of the emitted module.",
+        "design_ref": "DESIGN.md section 6 C17",
+        "note": "Operator-to-dunder table taken from src/check/context/function/python.rs; only structure is compared, nothing is executed.",
+        "technique": "property-based testing: model-derived expected API vs emitted ast (Hypothesis)",
+    },
     "C20": {
         "text": "Complete tabulation of is_superset_of over a finite universe per generated hierarchy (every plain class of the context, List/Set/Dict/Tuple instantiations to depth 2, nullable variants, unions of two, mixed-nullability unions, both bracketings of unions of three; ~200-450 terms, all ordered pairs, twice from freshly built names) and exhaustive evaluation of the order and union laws on the matrix; Hypothesis varies the hierarchy.",
         "design_ref": "DESIGN.md section 6 C20",
